@@ -287,8 +287,11 @@ func (g *gen) param(doc string, ord int) map[string]interface{} {
 		}
 	}
 	g.uniq++
-	if g.r.Intn(2) == 0 {
+	switch g.r.Intn(5) {
+	case 0, 1:
 		return map[string]interface{}{"name": fmt.Sprintf("q%d", g.uniq), "in": "query", "type": "string"}
+	case 2:
+		return map[string]interface{}{"name": fmt.Sprintf("a%d", g.uniq), "in": "query", "type": "array", "items": map[string]interface{}{"type": "string", "format": fmt.Sprintf("f%d", g.uniq)}}
 	}
 	return map[string]interface{}{"name": fmt.Sprintf("b%d", g.uniq), "in": "body", "schema": g.schema(doc, 1, 1<<30, false)}
 }
@@ -613,4 +616,11 @@ func sortedKeys[V any](m map[string]V) []string {
 		}
 	}
 	return ks
+}
+
+// SpellRef spells a reference from the document at `from` to (toURL, ptr) in one of the
+// spellings of the given wildness (0 plain, 1 mixed, 2 wild).
+func SpellRef(r *sim.RNG, from, toURL, ptr string, spellings int) string {
+	g := &gen{r: r, cfg: Cfg{Spellings: spellings}}
+	return g.refString(from, target{url: toURL, ptr: ptr})
 }
